@@ -209,8 +209,10 @@ PROPS = {
     "C14": {
         "title": "type-level safety",
         "rules": [r_type.rule_type, r_type.rule_surface, r_type.rule_wit_for("C14"),
-                  r_own.rule_view],
-        "explanation": "TYPE: for each of the unsafe impl Send/Sync, each field (looking through UnsafeCell/ManuallyDrop/raw "
+                  r_own.rule_view, r_own.rule_own],
+        "explanation": "OWN (last clause, two owners of one element): the ownership discipline of the consuming iterators — "
+                       "move-outs, alias views, Drop / remainder split, early_exit, and what an unwinding out of Drop does to a "
+                       "vector taken out of the storage (OWN.f); TYPE: for each of the unsafe impl Send/Sync, each field (looking through UnsafeCell/ManuallyDrop/raw "
                        "pointers) is Send/Sync under the impl's own predicates, asked of the compiler's trait solver; supertrait "
                        "and Item bounds of the public traits; SURFACE: no safe public function lets the caller choose the "
                        "index/ticket of a raw element access, no safe public mutator of a position counter is reachable; WIT: "
